@@ -38,7 +38,9 @@ Record chunk := mkC {
 
 Inductive framing :=
 | FrNone                                                   (* no body: HEAD, 204, 304 *)
-| FrClen (pos : nat)                                       (* Content-Length, placed before field #pos *)
+| FrClen (pos : nat) (digits : list N)                     (* Content-Length, placed before field #pos; the
+                                                              length as the server wrote it: 1*DIGIT, leading
+                                                              zeros allowed (RFC 7230 3.3.2) *)
 | FrChunked (pos : nat) (chunks : list chunk)
             (last_digits last_ext trailer : list N)        (* last chunk "0...", then whatever follows *)
 | FrClose.                                                 (* body ends when the server closes *)
@@ -58,7 +60,7 @@ Record response := mkResp {
 Definition resp_body (r : response) : list N :=
   match p_framing r with
   | FrNone => []
-  | FrClen _ => p_body r
+  | FrClen _ _ => p_body r
   | FrChunked _ cs _ _ _ => concat (map c_data cs)
   | FrClose => p_body r
   end.
@@ -88,7 +90,7 @@ Fixpoint insert_at {A} (pos : nat) (x : A) (l : list A) : list A :=
 
 Definition framing_field (r : response) : option (nat * hfield) :=
   match p_framing r with
-  | FrClen pos => Some (pos, mkF name_clen (dec (lenN (p_body r))) [SP] [])
+  | FrClen pos digits => Some (pos, mkF name_clen digits [SP] [])
   | FrChunked pos _ _ _ _ => Some (pos, mkF name_te value_chunked [SP] [])
   | _ => None
   end.
@@ -112,7 +114,7 @@ Definition render_chunk (c : chunk) : list N :=
 Definition render_body (r : response) : list N :=
   match p_framing r with
   | FrNone => []
-  | FrClen _ => p_body r
+  | FrClen _ _ => p_body r
   | FrChunked _ cs ld le tr => concat (map render_chunk cs) ++ ld ++ le ++ crlf ++ tr
   | FrClose => p_body r
   end.
@@ -143,6 +145,18 @@ Fixpoint hex_value (ds : list N) (acc : N) : option N :=
   | [] => Some acc
   | d :: r => match hexdigit_val d with Some v => hex_value r (16 * acc + v) | None => None end
   end.
+
+(* the value of a string of decimal digits, None if a character is not a digit;
+   Content-Length = 1*DIGIT: a non-empty digit string whose value is the length of the body *)
+Fixpoint dec_value (ds : list N) (acc : N) : option N :=
+  match ds with
+  | [] => Some acc
+  | d :: r => if is_dec_digit d then dec_value r (10 * acc + (d - 48)) else None
+  end.
+Definition wf_clen (digits : list N) (body : list N) : bool :=
+  negb (match digits with [] => true | _ => false end) &&
+  match dec_value digits 0 with Some v => v =? lenN body | None => false end &&
+  (lenN body <? two64).
 
 Definition wf_name (n : list N) : bool :=
   negb (match n with [] => true | _ => false end) &&
@@ -181,7 +195,7 @@ Definition bodiless (ishead : bool) (status : N) : bool :=
 Definition wf_framing (ishead : bool) (r : response) : bool :=
   match p_framing r with
   | FrNone => bodiless ishead (m_status (p_final r))
-  | FrClen pos => negb (bodiless ishead (m_status (p_final r))) && (lenN (p_body r) <? two64)
+  | FrClen pos digits => negb (bodiless ishead (m_status (p_final r))) && wf_clen digits (p_body r)
   | FrChunked pos cs ld le tr =>
     negb (bodiless ishead (m_status (p_final r))) && forallb wf_chunk cs &&
     negb (match ld with [] => true | _ => false end) && forallb (fun c => c =? 48) ld &&
@@ -213,7 +227,7 @@ Definition wf_chunk_nolimit (c : chunk) : bool :=
 Definition wf_framing_nolimits (ishead : bool) (r : response) : bool :=
   match p_framing r with
   | FrNone => bodiless ishead (m_status (p_final r))
-  | FrClen pos => negb (bodiless ishead (m_status (p_final r))) && (lenN (p_body r) <? two64)
+  | FrClen pos digits => negb (bodiless ishead (m_status (p_final r))) && wf_clen digits (p_body r)
   | FrChunked pos cs ld le tr =>
     negb (bodiless ishead (m_status (p_final r))) && forallb wf_chunk_nolimit cs &&
     negb (match ld with [] => true | _ => false end) && forallb (fun c => c =? 48) ld &&
